@@ -1,11 +1,20 @@
-//! Gas family (C26): traces generated programs under default / unit / randomised schedules and
-//! gas limits that run out mid-instruction; prints one Coq case per trace (replayed by the
-//! state machine of coq/Vm/GasModel.v) and checks the property directly on the implementation.
-use fuel_asm::PanicReason;
+//! Gas family (C26): traces generated and directed programs under default / unit / randomised
+//! schedules and gas limits that run out mid-instruction (also exactly inside multi-charge
+//! instructions: cost-1, cost, cost+1); prints one Coq case per trace (replayed by the state
+//! machine of coq/Vm/GasModel.v, which recomputes the EXACT total charge of every step from the
+//! opcode, its operands and the sizes observed before the step) and checks the property
+//! directly on the implementation with an independent per-mnemonic schedule evaluator.
+use fuel_asm::{op, GTFArgs, PanicReason, RegId};
+use fuel_storage::StorageSize;
+use fuel_tx::ContractIdExt;
+use fuel_types::{AssetId, BlobId, Bytes32, ContractId, SubAssetId};
+use fuel_vm::prelude::Call;
+use fuel_vm::storage::{BlobData, ContractsAssetsStorage, InterpreterStorage};
 use fvh::vmtrace::*;
 use fvh::*;
 use serde_json::json;
 use std::collections::{BTreeMap, BTreeSet};
+use fuel_types::canonical::Serialize as _;
 
 fn outcome_code(o: &Outcome) -> (u64, u64) {
     match o {
@@ -14,9 +23,106 @@ fn outcome_code(o: &Outcome) -> (u64, u64) {
     }
 }
 
-/// independent table: mnemonic -> (schedule field, unit source) for instructions whose whole
-/// charge is the first charge (hand-written from the gas schedule documentation; instructions
-/// with further internal charges are listed in MORE and only bounded from below)
+// ------------------------------------------------------------------ observations before a step
+#[derive(Clone, Debug, PartialEq)]
+enum Micro { Read { hot: bool, len: u64 }, Write { new_len: u64, old_len: u64 }, Clear(u64) }
+#[derive(Clone, Debug, Default)]
+struct Obs { code_size: Option<u64>, blob_size: Option<u64>, new_entry: bool, micro: Vec<Micro> }
+
+fn key_add(key: &[u8; 32], i: u64) -> Option<[u8; 32]> {
+    let mut k = *key;
+    let mut carry = i as u128;
+    for b in (0..32).rev() {
+        let v = k[b] as u128 + (carry & 0xff);
+        k[b] = v as u8;
+        carry = (carry >> 8) + (v >> 8);
+    }
+    if carry != 0 { None } else { Some(k) }
+}
+
+/// What the instruction about to execute will read: sizes of the contract/blob it names,
+/// whether the balance entry it credits exists, and (storage instructions) the slot
+/// operations it attempts with hot/cold state and value lengths.  Written from the
+/// instruction descriptions; reads VM memory, the storage and the VM's slot cache.
+fn observe(vm: &Vm, h: &StepHeader) -> Obs {
+    let mut o = Obs::default();
+    let raw = h.raw;
+    let opc = (raw >> 24) as u8;
+    let r = &h.regs_before;
+    let f = [((raw >> 18) & 63) as usize, ((raw >> 12) & 63) as usize, ((raw >> 6) & 63) as usize, (raw & 63) as usize];
+    let (ra, rb, rc, rd) = (r[f[0]], r[f[1]], r[f[2]], r[f[3]]);
+    let mem32 = |p: u64| -> Option<[u8; 32]> { vm.memory().read(p, 32usize).ok().map(|b| { let mut a = [0u8; 32]; a.copy_from_slice(b); a }) };
+    let st = &vm.as_ref().inner;
+    let code = |id: Option<[u8; 32]>| id.and_then(|i| st.storage_contract_size(&ContractId::from(i)).ok().flatten()).map(|x| x as u64);
+    let blob = |id: Option<[u8; 32]>| id.and_then(|i| StorageSize::<BlobData>::size_of_value(st, &BlobId::from(i)).ok().flatten()).map(|x| x as u64);
+    let fp = r[6];
+    let me = if fp == 0 { None } else { mem32(fp) };
+    let absent = |c: [u8; 32], a: [u8; 32]| st.contract_asset_id_balance(&ContractId::from(c), &AssetId::from(a)).ok().flatten().is_none();
+    match opc {
+        0x30 | 0x2f | 0x2e => o.code_size = code(mem32(rb)),                 // CSIZ CROO CCP
+        0x32 => match raw & 63 { 0 => o.code_size = code(mem32(ra)), 1 => o.blob_size = blob(mem32(ra)), _ => {} },   // LDC
+        0xba | 0xbb => o.blob_size = blob(mem32(rb)),                       // BSIZ BLDD
+        0x2d => {                                                           // CALL
+            let to = mem32(ra);
+            o.code_size = code(to);
+            if let (Some(to), Some(asset)) = (to, mem32(rc)) { o.new_entry = rb > 0 && absent(to, asset); }
+        }
+        0x3c => if let (Some(to), Some(asset)) = (mem32(ra), mem32(rc)) { o.new_entry = rb > 0 && absent(to, asset); },   // TR
+        0x35 => if let (Some(me), Some(sub)) = (me, mem32(rb)) {             // MINT
+            let asset = ContractId::from(me).asset_id(&SubAssetId::from(sub));
+            o.new_entry = absent(me, *asset);
+        },
+        0x37..=0x3b | 0xc0..=0xc7 => if let Some(me) = me {
+            let cache = vm.bench_storage_slot_cache();
+            let cid = ContractId::from(me);
+            let mut overlay: BTreeMap<[u8; 32], Option<u64>> = BTreeMap::new();
+            let mut view = |k: &[u8; 32], overlay: &BTreeMap<[u8; 32], Option<u64>>| -> (bool, Option<u64>) {
+                if let Some(v) = overlay.get(k) { return (true, *v); }
+                if let Some(v) = cache.get(&(cid, Bytes32::from(*k))) { return (true, v.as_ref().map(|d| d.len() as u64)); }
+                (false, st.contract_state(&cid, &Bytes32::from(*k)).ok().flatten().map(|d| d.as_ref().as_ref().len() as u64))
+            };
+            let mut micro = vec![];
+            let mut read = |k: &[u8; 32], overlay: &mut BTreeMap<[u8; 32], Option<u64>>, micro: &mut Vec<Micro>| -> Option<u64> {
+                let (hot, len) = view(k, overlay);
+                micro.push(Micro::Read { hot, len: len.unwrap_or(0) });
+                overlay.insert(*k, len);
+                len
+            };
+            let (kp, n): (u64, u64) = match opc {
+                0x38 => (rc, 1), 0x39 => (rc, rd), 0x3a => (ra, 1), 0x3b => (ra, rd), 0x37 => (ra, rc),
+                0xc0 => (ra, rb), 0xc1 | 0xc2 | 0xc7 => (rb, 1), _ => (ra, 1),
+            };
+            if let Some(key) = mem32(kp) {
+                let n = n.min(64);
+                match opc {
+                    0x38 | 0xc1 | 0xc2 | 0xc7 => { read(&key, &mut overlay, &mut micro); }
+                    0x39 => for i in 0..n { match key_add(&key, i) { Some(k) => { read(&k, &mut overlay, &mut micro); } None => break } },
+                    0x3a | 0x3b => for i in 0..n { match key_add(&key, i) {
+                        Some(k) => { let old = read(&k, &mut overlay, &mut micro).unwrap_or(0); micro.push(Micro::Write { new_len: 32, old_len: old }); overlay.insert(k, Some(32)); }
+                        None => break } },
+                    0x37 => { for i in 0..n { match key_add(&key, i) { Some(k) => { read(&k, &mut overlay, &mut micro); } None => break } } micro.push(Micro::Clear(rc)); }
+                    0xc0 => micro.push(Micro::Clear(rb)),
+                    0xc3 | 0xc4 => { let len = if opc == 0xc3 { rc } else { (raw & 0xfff) as u64 };
+                        let (_, old) = { let v = |k: &[u8; 32]| -> (bool, Option<u64>) {
+                            if let Some(v) = cache.get(&(cid, Bytes32::from(*k))) { return (true, v.as_ref().map(|d| d.len() as u64)); }
+                            (false, st.contract_state(&cid, &Bytes32::from(*k)).ok().flatten().map(|d| d.as_ref().as_ref().len() as u64)) }; v(&key) };
+                        micro.push(Micro::Write { new_len: len, old_len: old.unwrap_or(0) }); }
+                    _ => { // SUPD / SUPI
+                        let wlen = if opc == 0xc5 { rd } else { (raw & 63) as u64 };
+                        let old = read(&key, &mut overlay, &mut micro).unwrap_or(0);
+                        let off = if rc == u64::MAX { old } else { rc };
+                        micro.push(Micro::Write { new_len: old.max(off.saturating_add(wlen)), old_len: old });
+                    }
+                }
+            }
+            o.micro = micro;
+        },
+        _ => {}
+    }
+    o
+}
+
+// ------------------------------------------------------------------ independent schedule evaluator
 fn ref_field(m: &str) -> Option<(String, Option<char>)> {
     let special: &[(&str, &str)] = &[("EQ", "eq"), ("MOD", "mod_op"), ("MOVE", "move_op"), ("LQW", "lw"), ("LHW", "lw"), ("SQW", "sw"), ("SHW", "sw"),
         ("JAL", "jmp"), ("CFS", "cfsi"), ("SCWQ", "noop"), ("SRW", "noop"), ("SRWQ", "noop"), ("SWW", "noop"), ("SWWQ", "noop"), ("SCLR", "noop"),
@@ -27,54 +133,97 @@ fn ref_field(m: &str) -> Option<(String, Option<char>)> {
     let f = special.iter().find(|(k, _)| *k == m).map(|(_, v)| v.to_string()).unwrap_or_else(|| m.to_lowercase());
     Some((f, dep.iter().find(|(k, _)| *k == m).map(|(_, c)| *c)))
 }
-const MORE: [&str; 22] = ["CALL", "CCP", "CROO", "CSIZ", "LDC", "MINT", "SCWQ", "SRW", "SRWQ", "SWW", "SWWQ", "TR", "BSIZ", "BLDD", "SCLR", "SRDD", "SRDI", "SWRD", "SWRI", "SUPD", "SUPI", "SPLD"];
+fn pad8(x: u64) -> Option<u64> { x.checked_add(7).map(|y| y / 8 * 8) }
 
-fn ref_first_charge(s: &Step, costs: &BTreeMap<String, CostVal>) -> Option<(u64, bool)> {
+/// all charges of the step in order (known prefix) + whether the list is complete;
+/// hand-written per mnemonic from the gas-cost description
+fn ref_charges(s: &Step, o: &Obs, costs: &BTreeMap<String, CostVal>) -> Option<(Vec<u64>, bool)> {
     let (f, unit) = ref_field(&s.mnemonic)?;
     let c = costs.get(&f)?;
-    let more = MORE.contains(&s.mnemonic.as_str());
-    if more { return Some((c.base(), false)); }
     let v = s.field_values();
-    let units = match unit {
-        None => return Some((c.base(), true)),
-        Some('a') => v[0], Some('b') => v[1], Some('c') => v[2], Some('d') => v[3],
-        Some('e') => if v[3] == 0 { 32 } else { v[3] },
-        Some('i') => s.imm as u64,
-        _ => 0,
-    };
-    Some((c.resolve(units), true))
+    let pb = costs.get("new_storage_per_byte").map(|c| c.base()).unwrap_or(0);
+    let two = |u: Option<u64>| -> (Vec<u64>, bool) { match u { Some(u) => (vec![c.base(), c.resolve_without_base(u)], true), None => (vec![c.base()], false) } };
+    let with_entry = |mut l: Vec<u64>| -> (Vec<u64>, bool) { if o.new_entry { l.push(40u64.saturating_mul(pb)); } (l, true) };
+    Some(match s.mnemonic.as_str() {
+        "CSIZ" | "CROO" => two(o.code_size),
+        "CCP" => two(o.code_size.map(|x| x.max(v[3]))),
+        "BSIZ" => two(o.blob_size),
+        "BLDD" => two(o.blob_size.map(|x| x.max(v[3]))),
+        "LDC" => match s.raw & 63 {
+            0 => two(o.code_size.and_then(|x| pad8(v[2]).map(|p| x.max(p)))),
+            1 => two(o.blob_size.map(|x| x.max(pad8(v[2]).unwrap_or(u64::MAX)))),
+            2 => if v[2] == 0 { (vec![c.base()], true) } else { two(Some(pad8(v[2]).unwrap_or(u64::MAX))) },
+            _ => (vec![c.base()], true),
+        },
+        "CALL" => match o.code_size.and_then(pad8) {
+            Some(sz) => with_entry(vec![c.base(), c.resolve_without_base(sz)]),
+            None => (vec![c.base()], false),
+        },
+        "TR" | "MINT" => with_entry(vec![c.base()]),
+        m if f == "noop" && m != "NOOP" => {
+            let mut l = vec![c.base()];
+            for mi in &o.micro {
+                match mi {
+                    Micro::Read { hot, len } => l.push(costs.get(if *hot { "storage_read_hot" } else { "storage_read_cold" })?.resolve(*len)),
+                    Micro::Write { new_len, old_len } => { l.push(costs.get("storage_write")?.resolve(*new_len)); l.push(pb.saturating_mul(new_len.saturating_sub(*old_len))); }
+                    Micro::Clear(n) => l.push(costs.get("storage_clear")?.resolve(*n)),
+                }
+            }
+            (l, true)
+        }
+        _ => {
+            let units = match unit { None => return Some((vec![c.base()], true)), Some('a') => v[0], Some('b') => v[1], Some('c') => v[2], Some('d') => v[3],
+                Some('e') => if v[3] == 0 { 32 } else { v[3] }, Some('i') => s.imm as u64, _ => 0 };
+            (vec![c.resolve(units)], true)
+        }
+    })
 }
 
-fn trace_oracle(out: &mut Out, t: &Trace, costs: &BTreeMap<String, CostVal>, replay: &serde_json::Value) {
+fn oog_justified(mut cg: u64, l: &[u64]) -> bool {
+    for x in l { if cg < *x { return true; } cg -= x; }
+    false
+}
+
+fn trace_oracle(out: &mut Out, t: &Trace, obs: &BTreeMap<usize, Obs>, costs: &BTreeMap<String, CostVal>, replay: &serde_json::Value) {
     let fail = |out: &mut Out, class: &str, what: String| out.oracle_fail(class, &what, replay.clone());
     if let Some(s0) = t.steps.first() {
         if s0.regs_before[9] != t.gas_limit || s0.regs_before[10] != t.gas_limit {
             fail(out, "initial-gas-not-limit", format!("initial (cgas, ggas) = ({}, {}), limit {}", s0.regs_before[10], s0.regs_before[9], t.gas_limit));
         }
     }
+    let none = Obs::default();
     for s in &t.steps {
         out.oracle_evaluations += 1;
         let ((c0, c1), (g0, g1)) = (s.cgas(), s.ggas());
         if c0 > g0 || c1 > g1 { fail(out, "cgas-exceeds-ggas", format!("step {} {}: cgas {}->{} ggas {}->{}", s.index, s.mnemonic, c0, c1, g0, g1)); }
         if g1 > g0 { fail(out, "ggas-increased", format!("step {} {}: ggas {} -> {}", s.index, s.mnemonic, g0, g1)); }
-        // frames: cgas + sum(saved) <= ggas
         let sum_after: u128 = s.frames_after.iter().map(|f| f.saved_cgas as u128).sum();
         if c1 as u128 + sum_after > g1 as u128 { fail(out, "frame-gas-exceeds-ggas", format!("step {} {}: cgas {} + saved {} > ggas {}", s.index, s.mnemonic, c1, sum_after, g1)); }
         if s.kind == StepKind::FetchFault || s.instr.is_none() {
             if c0 != c1 || g0 != g1 { fail(out, "gas-changed-without-execution", format!("step {}: gas changed on a fetch fault / undecodable word", s.index)); }
             continue;
         }
+        let o = obs.get(&s.index).unwrap_or(&none);
         let oog = s.outcome.panic_reason() == Some(PanicReason::OutOfGas);
-        let first = ref_first_charge(s, costs);
+        let charges = ref_charges(s, o, costs);
         if oog {
             if c1 != 0 || g1 != g0 - c0 { fail(out, "out-of-gas-state", format!("step {} {}: after OutOfGas cgas {} ggas {} (before {} / {})", s.index, s.mnemonic, c1, g1, c0, g0)); }
-            if let Some((amt, true)) = first { if amt <= c0 { fail(out, "spurious-out-of-gas", format!("step {} {}: cost {} <= cgas {} but OutOfGas", s.index, s.mnemonic, amt, c0)); } }
+            if let Some((l, true)) = &charges { if !oog_justified(c0, l) { fail(out, "spurious-out-of-gas", format!("step {} {}: charges {:?} all affordable with cgas {} but OutOfGas", s.index, s.mnemonic, l, c0)); } }
             continue;
         }
         let delta = g0 - g1;
-        match first {
-            Some((amt, true)) => if delta != amt { fail(out, "charge-differs-from-schedule", format!("step {} {}: charged {} schedule says {}", s.index, s.mnemonic, delta, amt)); },
-            Some((amt, false)) => if delta < amt { fail(out, "charge-below-base", format!("step {} {}: charged {} < base {}", s.index, s.mnemonic, delta, amt)); },
+        match &charges {
+            Some((l, complete)) => {
+                if s.outcome.panic_reason().is_some() {
+                    let mut acc = 0u64; let mut ok = false;
+                    for x in l { acc = acc.saturating_add(*x); if acc == delta { ok = true; } }
+                    if !ok { fail(out, "charge-differs-from-schedule", format!("step {} {} (panicked {:?}): charged {} is no prefix of {:?}", s.index, s.mnemonic, s.outcome.panic_reason(), delta, l)); }
+                } else {
+                    let total = l.iter().fold(0u64, |a, x| a.saturating_add(*x));
+                    if !complete { fail(out, "charge-quantity-unobserved", format!("step {} {}: succeeded but its size operand was not observable", s.index, s.mnemonic)); }
+                    else if delta != total { fail(out, "charge-differs-from-schedule", format!("step {} {}: charged {} schedule says {:?} = {} (code {:?} blob {:?} new entry {} micro {:?})", s.index, s.mnemonic, delta, l, total, o.code_size, o.blob_size, o.new_entry, o.micro)); }
+                }
+            }
             None => if s.mnemonic != "ECAL" { fail(out, "schedule-field-missing", format!("step {} {}: no schedule entry", s.index, s.mnemonic)); },
         }
         let is_call_ok = s.mnemonic == "CALL" && matches!(s.outcome, Outcome::Proceed);
@@ -100,46 +249,278 @@ fn trace_oracle(out: &mut Out, t: &Trace, costs: &BTreeMap<String, CostVal>, rep
     }
 }
 
-fn gstep_coq(s: &Step) -> String {
+fn gstep_coq(s: &Step, o: &Obs) -> String {
     let v = s.field_values();
     let (oc, reason) = outcome_code(&s.outcome);
-    format!("{{| gs_kind := {}; gs_raw := {}; gs_decoded := {}; gs_va := {}; gs_vb := {}; gs_vc := {}; gs_vd := {}; gs_c0 := {}; gs_g0 := {}; gs_c1 := {}; gs_g1 := {}; gs_outcome := {}; gs_reason := {}; gs_depth1 := {}; gs_saved_top1 := {} |}}",
+    let micro: Vec<String> = o.micro.iter().map(|m| match m {
+        Micro::Read { hot, len } => format!("MRead {} {}", coq_bool(*hot), len),
+        Micro::Write { new_len, old_len } => format!("MWrite {} {}", new_len, old_len),
+        Micro::Clear(n) => format!("MClear {}", n),
+    }).collect();
+    format!("{{| gs_kind := {}; gs_raw := {}; gs_decoded := {}; gs_va := {}; gs_vb := {}; gs_vc := {}; gs_vd := {}; gs_c0 := {}; gs_g0 := {}; gs_c1 := {}; gs_g1 := {}; gs_outcome := {}; gs_reason := {}; gs_depth1 := {}; gs_saved_top1 := {}; gs_code_size := {}; gs_blob_size := {}; gs_new_entry := {}; gs_micro := {} |}}",
         if s.kind == StepKind::Exec { 0 } else { 1 }, s.raw, coq_bool(s.instr.is_some()), v[0], v[1], v[2], v[3],
-        s.cgas().0, s.ggas().0, s.cgas().1, s.ggas().1, oc, reason, s.frames_after.len(), s.frames_after.last().map(|f| f.saved_cgas).unwrap_or(0))
+        s.cgas().0, s.ggas().0, s.cgas().1, s.ggas().1, oc, reason, s.frames_after.len(), s.frames_after.last().map(|f| f.saved_cgas).unwrap_or(0),
+        coq_opt(o.code_size.map(|x| x.to_string())), coq_opt(o.blob_size.map(|x| x.to_string())), coq_bool(o.new_entry), coq_list(&micro))
 }
 
-/// trace, check, push; returns gas used (for choosing tight limits)
-fn gcase_push(out: &mut Out, scn: &Scenario, class: &str, with_model: bool) -> Option<u64> {
+const MULTI: [&str; 22] = ["CALL", "CCP", "CROO", "CSIZ", "LDC", "MINT", "SCWQ", "SRW", "SRWQ", "SWW", "SWWQ", "TR", "BSIZ", "BLDD", "SCLR", "SRDD", "SRDI", "SWRD", "SWRI", "SUPD", "SUPI", "SPLD"];
+
+/// trace, check, push; returns (gas used, for each multi-charge step: gas consumed before it and its total charge)
+fn gcase_push(out: &mut Out, scn: &Scenario, class: &str, with_model: bool) -> Option<(u64, Vec<(u64, u64)>)> {
     let replay = json!({"kind": "g", "scenario": scn.to_json()});
     let opts = TraceOpts { max_steps: 2500, mem_diff: false, storage: false, frames: true };
-    let t = match guarded(|| trace(&scn.world, &scn.tx, &opts)) {
+    let (t, hk) = match guarded(|| trace_hooked(&scn.world, &scn.tx, &opts, |vm, h| observe(vm, h), |_, _, o| o)) {
         Ok(Ok(t)) => t,
         Ok(Err(e)) => { out.count(&format!("tx-rejected:{}", e.split(':').next().unwrap_or(""))); return None; }
         Err(p) => { out.oracle_fail("host-panic", &format!("trace panicked the host: {p}"), replay); return None; }
     };
+    let obs: BTreeMap<usize, Obs> = hk.into_iter().collect();
     let costs = scn.world.costs();
-    trace_oracle(out, &t, &costs, &replay);
+    trace_oracle(out, &t, &obs, &costs, &replay);
     let oog = t.panic_reason() == Some(PanicReason::OutOfGas);
     out.count(&format!("final:{}{}", format!("{:?}", t.final_state).split('(').next().unwrap(), if oog { ":OutOfGas" } else { "" }));
     out.count(&format!("schedule:{}", scn.world.schedule.name().split(':').next().unwrap()));
     let mut calls = 0;
     let mut sig = 0u64;
+    let mut targets = vec![];
     for s in &t.steps {
         if s.mnemonic == "CALL" && matches!(s.outcome, Outcome::Proceed) { calls += 1; }
         sig = sig.wrapping_mul(1099511628211).wrapping_add(s.ggas().1 ^ ((s.opcode as u64) << 40));
         if s.outcome.panic_reason() == Some(PanicReason::OutOfGas) { out.count(&format!("oog-at:{}", s.mnemonic)); }
+        if MULTI.contains(&s.mnemonic.as_str()) && s.kind == StepKind::Exec {
+            out.count(&format!("multi:{}:{}", s.mnemonic, s.outcome.name()));
+            if s.outcome.panic_reason().is_none() { targets.push((t.gas_limit - s.ggas().0, s.gas_charged())); }
+        }
     }
     out.count(&format!("calls:{}", calls.min(3)));
-    if !with_model || t.final_state == FinalState::StepLimit { return t.gas_used; }
+    let ret = t.gas_used.map(|g| (g, targets));
+    if !with_model || t.final_state == FinalState::StepLimit { return ret; }
     // only the schedule fields this trace needs
-    let mut need: BTreeSet<String> = BTreeSet::new();
+    let mut need: BTreeSet<String> = ["new_storage_per_byte", "storage_read_hot", "storage_read_cold", "storage_write", "storage_clear"].iter().map(|s| s.to_string()).collect();
     for s in &t.steps { if let Some((f, _)) = ref_field(&s.mnemonic) { need.insert(f); } }
     let cs: Vec<String> = need.iter().filter_map(|f| costs.get(f).map(|c| format!("(\"{}\", {})", f, c.to_coq().trim_start_matches('(').trim_end_matches(')')))).collect();
+    let none = Obs::default();
     let coq = format!("{{| gc_costs := {}; gc_default := {}; gc_limit := {}; gc_gas_used := {}; gc_final_ggas := {}; gc_steps := {} |}}",
         coq_list(&cs), coq_bool(scn.world.schedule == GasSchedule::Default), t.gas_limit, coq_opt(t.gas_used.map(|g| g.to_string())), t.final_ggas(),
-        coq_list(&t.steps.iter().map(gstep_coq).collect::<Vec<_>>()));
+        coq_list(&t.steps.iter().map(|s| gstep_coq(s, obs.get(&s.index).unwrap_or(&none))).collect::<Vec<_>>()));
     out.push(Case { coq, json: replay, key: format!("g:{}:{}:{:x}", scn.world.schedule.name(), t.steps.len(), sig), nontrivial: t.steps.len() >= 5, class: class.to_string() });
-    t.gas_used
+    ret
+}
+
+// ------------------------------------------------------------------ directed scenarios
+const CODE_SIZES: [usize; 7] = [0, 4, 13, 20, 100, 1000, 4096];
+const BLOB_SIZES: [usize; 5] = [0, 5, 64, 300, 2048];
+
+/// World with contracts of fixed code sizes (first word `ret $one`), blobs, a "worker" contract
+/// whose code is given, and a script; script data = contract ids ‖ blob ids ‖ asset ids ‖ Call structs ‖ keys
+struct Directed { scn: Scenario, id_off: Vec<usize>, blob_off: Vec<usize>, asset_off: Vec<usize>, call_off: Vec<usize>, key_off: usize }
+
+fn directed_world(rng: &mut Rng, schedule: GasSchedule, worker: &[u32]) -> Directed {
+    let assets: Vec<AssetId> = (0..3).map(|_| AssetId::from(rng.bytes32())).collect();
+    let mut world = World::new(schedule, 5, assets.clone());
+    let mut ids = vec![];
+    for (i, sz) in CODE_SIZES.iter().enumerate() {
+        let mut code = words_to_bytes(&vec![u32::from_be_bytes(op::noop().into()); sz.div_ceil(4)]);
+        if code.len() >= 4 { code[..4].copy_from_slice(&<[u8; 4]>::from(op::ret(RegId::ONE))); }
+        code.truncate(*sz);
+        let id = ContractId::from(rng.bytes32());
+        // even contracts own asset 1 already, odd ones do not (first-time balance entry)
+        let balances = if i % 2 == 0 { vec![(assets[1], 1000)] } else { vec![] };
+        world.deploy(ContractDef { id, code, balances, slots: vec![] });
+        ids.push(id);
+    }
+    let wid = ContractId::from(rng.bytes32());
+    let mut key0 = rng.bytes32();
+    key0[31] = 0x20;
+    let slots: Vec<([u8; 32], Vec<u8>)> = vec![(key0, rng.bytes(32)), (key_add(&key0, 1).unwrap(), rng.bytes(32)), (key_add(&key0, 3).unwrap(), rng.bytes(40)), (key_add(&key0, 4).unwrap(), vec![])];
+    world.deploy(ContractDef { id: wid, code: words_to_bytes(worker), balances: vec![(assets[0], 5000), (assets[1], 5000)], slots });
+    ids.push(wid);
+    let mut blob_ids = vec![];
+    for sz in BLOB_SIZES { let id = rng.bytes32(); world.deploy_blob(id, rng.bytes(sz)); blob_ids.push(id); }
+    blob_ids.push([0xBB; 32]); // not deployed
+    let mut data = vec![];
+    let mut id_off = vec![];
+    for id in &ids { id_off.push(data.len()); data.extend_from_slice(id.as_ref()); }
+    id_off.push(data.len()); data.extend([0xEE; 32]); // not deployed
+    let mut blob_off = vec![];
+    for b in &blob_ids { blob_off.push(data.len()); data.extend_from_slice(b); }
+    let mut asset_off = vec![];
+    for a in &assets { asset_off.push(data.len()); data.extend_from_slice(a.as_ref()); }
+    let mut call_off = vec![];
+    for id in &ids { call_off.push(data.len()); data.extend(Call::new(*id, 0, 0).to_bytes()); }
+    let key_off = data.len();
+    for i in 0..8 { data.extend(key_add(&key0, i).unwrap()); }
+    data.extend(rng.bytes(128));
+    let mut tx = TxSpec::new(vec![], data, 3_000_000);
+    tx.key_seed = rng.next();
+    for a in &assets { tx.coins.push((*a, 100_000)); }
+    tx.contract_inputs = ids.clone();
+    tx.outputs.push(OutSpec::Change(assets[0]));
+    let layout = DataLayout::new(&mut Rng::new(0), &ids, &assets, 0);
+    Directed { scn: Scenario { world, tx, layout, units: vec![], seed_note: "directed".into() }, id_off, blob_off, asset_off, call_off, key_off }
+}
+
+fn load64(items: &mut Vec<Asm>, r: u8, v: u64) {
+    if v < (1 << 18) { items.push(Asm::I(op::movi(r, v as u32))); return; }
+    items.push(Asm::I(op::movi(r, (v >> 46) as u32 & 0x3ffff)));
+    items.push(Asm::I(op::slli(r, r, 18)));
+    items.push(Asm::I(op::ori(r, r, ((v >> 34) & 0xfff) as u16)));
+    items.push(Asm::I(op::slli(r, r, 12)));
+    items.push(Asm::I(op::ori(r, r, ((v >> 22) & 0xfff) as u16)));
+    items.push(Asm::I(op::slli(r, r, 12)));
+    items.push(Asm::I(op::ori(r, r, ((v >> 10) & 0xfff) as u16)));
+    items.push(Asm::I(op::slli(r, r, 10)));
+    items.push(Asm::I(op::ori(r, r, (v & 0x3ff) as u16)));
+}
+fn dptr(items: &mut Vec<Asm>, r: u8, off: usize) {
+    items.push(Asm::I(op::movi(r, off as u32)));
+    items.push(Asm::I(op::add(r, r, R_DATA)));
+}
+fn boundary_len(rng: &mut Rng, size: u64) -> u64 {
+    match rng.below(12) {
+        0 => 0, 1 => 1, 2 => 7, 3 => 8, 4 => size.saturating_sub(1), 5 => size, 6 => size + 1, 7 => size + 9,
+        8 => 5000, 9 => 200_000, 10 => size / 2, _ => rng.below(2 * size + 20),
+    }
+}
+
+/// one directed script (or worker contract) exercising a multi-charge instruction with boundary operands
+fn directed_case(rng: &mut Rng, schedule: GasSchedule, kind: u64) -> Scenario {
+    let gtf = Asm::I(op::gtf(R_DATA, 0u8, GTFArgs::ScriptData as u16));
+    let (a, b, c, d, e) = (0x20u8, 0x21u8, 0x22u8, 0x23u8, 0x24u8);
+    // worker contract: storage / mint / tr sequences
+    let mut worker: Vec<Asm> = vec![gtf.clone(), Asm::I(op::cfei(512)), Asm::I(op::movi(a, 3)), Asm::I(op::flag(a))];
+    let mut script: Vec<Asm> = vec![gtf.clone()];
+    // placeholders: build the world first to know offsets (they do not depend on the code)
+    let probe = directed_world(&mut rng.clone(), schedule.clone(), &[0]);
+    let (id_off, blob_off, asset_off, call_off, key_off) = (probe.id_off.clone(), probe.blob_off.clone(), probe.asset_off.clone(), probe.call_off.clone(), probe.key_off);
+    let n_c = CODE_SIZES.len();
+    let widx = n_c; // worker index
+    let ci = rng.below(n_c as u64 + 1) as usize; // n_c = the undeployed id
+    let csize = if ci < n_c { CODE_SIZES[ci] as u64 } else { 0 };
+    let coff = if ci < n_c { id_off[ci] } else { id_off[n_c + 1] };
+    let bi = rng.below(BLOB_SIZES.len() as u64 + 1) as usize;
+    let bsize = if bi < BLOB_SIZES.len() { BLOB_SIZES[bi] as u64 } else { 0 };
+    let mut call_worker = false;
+    match kind % 10 {
+        0 => { // LDC mode 0
+            dptr(&mut script, a, coff);
+            load64(&mut script, b, *rng.pick(&[0u64, 4, csize, csize + 100]));
+            let len = boundary_len(rng, csize);
+            load64(&mut script, c, len);
+            script.push(Asm::I(op::ldc(a, b, c, 0)));
+        }
+        1 => { // LDC mode 1 (blob) / mode 2 (memory)
+            if rng.bool() {
+                dptr(&mut script, a, blob_off[bi]);
+                load64(&mut script, b, *rng.pick(&[0u64, 3, bsize, bsize + 50]));
+                let len = boundary_len(rng, bsize);
+                load64(&mut script, c, len);
+                script.push(Asm::I(op::ldc(a, b, c, 1)));
+            } else {
+                script.push(Asm::I(op::move_(a, R_DATA)));
+                load64(&mut script, b, rng.below(64));
+                let len = *rng.pick(&[0u64, 1, 7, 8, 9, 100, 300]);
+                load64(&mut script, c, len);
+                script.push(Asm::I(op::ldc(a, b, c, 2)));
+            }
+        }
+        2 => { // CCP
+            let len = boundary_len(rng, csize);
+            load64(&mut script, d, len);
+            load64(&mut script, e, len + 8);
+            script.push(Asm::I(op::aloc(e)));
+            dptr(&mut script, b, coff);
+            load64(&mut script, c, *rng.pick(&[0u64, 4, csize, csize + 100]));
+            script.push(Asm::I(op::ccp(RegId::HP, b, c, d)));
+        }
+        3 => { // CSIZ / CROO
+            dptr(&mut script, b, coff);
+            if rng.bool() { script.push(Asm::I(op::csiz(a, b))); }
+            else { script.push(Asm::I(op::movi(e, 32))); script.push(Asm::I(op::aloc(e))); script.push(Asm::I(op::croo(RegId::HP, b))); }
+        }
+        4 => { // BSIZ / BLDD
+            dptr(&mut script, b, blob_off[bi]);
+            if rng.chance(1, 3) { script.push(Asm::I(op::bsiz(a, b))); }
+            else {
+                let len = boundary_len(rng, bsize);
+                load64(&mut script, d, len);
+                load64(&mut script, e, len + 8);
+                script.push(Asm::I(op::aloc(e)));
+                load64(&mut script, c, *rng.pick(&[0u64, 3, bsize, bsize + 50]));
+                script.push(Asm::I(op::bldd(RegId::HP, b, c, d)));
+            }
+        }
+        5 => { // CALL: code sizes x first-time / existing balance entry x coins
+            let k = if ci < n_c { ci } else { 1 };
+            dptr(&mut script, a, call_off[k]);
+            script.push(Asm::I(op::movi(b, *rng.pick(&[0u32, 1, 7]))));
+            dptr(&mut script, c, asset_off[rng.below(3) as usize]);
+            match rng.below(3) { 0 => script.push(Asm::I(op::move_(d, RegId::CGAS))), 1 => script.push(Asm::I(op::movi(d, rng.below(200) as u32))), _ => script.push(Asm::I(op::not(d, RegId::ZERO))) }
+            script.push(Asm::I(op::call(a, b, c, d)));
+            // a second call to the same contract with the same asset: the entry exists now
+            script.push(Asm::I(op::call(a, b, c, d)));
+        }
+        6 => { // TR from the script: first-time vs existing entry
+            let k = if ci < n_c { ci } else { 2 };
+            dptr(&mut script, a, id_off[k]);
+            script.push(Asm::I(op::movi(b, rng.range(1, 9) as u32)));
+            dptr(&mut script, c, asset_off[rng.below(3) as usize]);
+            script.push(Asm::I(op::tr(a, b, c)));
+            script.push(Asm::I(op::tr(a, b, c)));
+        }
+        7 => { // MINT / TR / BURN inside the worker
+            call_worker = true;
+            dptr(&mut worker, a, key_off + 32 * rng.below(3) as usize);
+            worker.push(Asm::I(op::movi(b, rng.range(0, 9) as u32)));
+            worker.push(Asm::I(op::mint(b, a)));
+            worker.push(Asm::I(op::mint(b, a)));
+            worker.push(Asm::I(op::burn(b, a)));
+            dptr(&mut worker, c, id_off[rng.below(n_c as u64) as usize]);
+            dptr(&mut worker, d, asset_off[rng.below(2) as usize]);
+            worker.push(Asm::I(op::movi(e, 3)));
+            worker.push(Asm::I(op::tr(c, e, d)));
+        }
+        _ => { // storage instructions inside the worker, boundary lengths / hot and cold / ranges
+            call_worker = true;
+            let n_ops = rng.range(4, 9);
+            for _ in 0..n_ops {
+                let k = rng.below(6) as usize;
+                dptr(&mut worker, a, key_off + 32 * k);
+                worker.push(Asm::I(op::addi(b, RegId::SSP, 64)));   // local buffer
+                let (s1, s2) = (0x28u8, 0x29u8);
+                match rng.below(13) {
+                    0 => worker.push(Asm::I(op::sww(a, s1, 0x2a))),
+                    1 => worker.push(Asm::I(op::srw(s2, s1, a, *rng.pick(&[0u8, 0, 3, 4])))),
+                    2 => { worker.push(Asm::I(op::movi(c, rng.below(4) as u32))); worker.push(Asm::I(op::swwq(a, s1, b, c))) }
+                    3 => { worker.push(Asm::I(op::movi(c, rng.below(3) as u32))); worker.push(Asm::I(op::srwq(b, s1, a, c))) }
+                    4 => { worker.push(Asm::I(op::movi(c, rng.below(4) as u32))); worker.push(Asm::I(op::scwq(a, s1, c))) }
+                    5 => { let l = *rng.pick(&[0u32, 1, 31, 32, 33, 100, 300]); worker.push(Asm::I(op::movi(c, l))); worker.push(Asm::I(op::swrd(a, b, c))) }
+                    6 => worker.push(Asm::I(op::swri(a, b, *rng.pick(&[0u16, 1, 32, 40, 200])))),
+                    7 => { worker.push(Asm::I(op::movi(c, rng.below(9) as u32))); worker.push(Asm::I(op::movi(d, rng.below(24) as u32))); worker.push(Asm::I(op::srdd(b, a, c, d))) }
+                    8 => { worker.push(Asm::I(op::movi(c, rng.below(9) as u32))); worker.push(Asm::I(op::srdi(b, a, c, rng.below(24) as u8))) }
+                    9 => { if rng.bool() { worker.push(Asm::I(op::not(c, RegId::ZERO))) } else { worker.push(Asm::I(op::movi(c, rng.below(33) as u32))) }
+                           worker.push(Asm::I(op::movi(d, rng.below(60) as u32))); worker.push(Asm::I(op::supd(a, b, c, d))) }
+                    10 => { worker.push(Asm::I(op::movi(c, rng.below(33) as u32))); worker.push(Asm::I(op::supi(a, b, c, rng.below(40) as u8))) }
+                    11 => { worker.push(Asm::I(op::movi(c, rng.below(4) as u32))); worker.push(Asm::I(op::sclr(a, c))) }
+                    _ => worker.push(Asm::I(op::spld(s2, a))),
+                }
+            }
+        }
+    }
+    worker.push(Asm::I(op::ret(RegId::ONE)));
+    if call_worker {
+        dptr(&mut script, a, call_off[widx]);
+        dptr(&mut script, c, asset_off[0]);
+        script.push(Asm::I(op::call(a, RegId::ZERO, c, RegId::CGAS)));
+    }
+    script.push(Asm::I(op::ret(RegId::ONE)));
+    let wwords = assemble(&worker).expect("worker");
+    let mut dw = directed_world(rng, schedule, &wwords);
+    let swords = assemble(&script).expect("directed script");
+    dw.scn.tx.script = words_to_bytes(&swords);
+    dw.scn.units = vec![swords, wwords];
+    dw.scn.seed_note = format!("directed:{}", kind % 10);
+    dw.scn
 }
 
 fn run_c26(args: &Args, out: &mut Out) {
@@ -150,8 +531,32 @@ fn run_c26(args: &Args, out: &mut Out) {
         return;
     }
     let with_model = !args.oracle_only;
-    let n = args.scale(30, 700);
-    let n_oracle = args.scale(250, 6000);
+    // (1) directed: multi-charge / size-dependent instructions with boundary operands, then
+    // limits that run out exactly inside them
+    let nd = args.scale(40, 600);
+    let nd_oracle = args.scale(400, 8000);
+    for i in 0..(nd + nd_oracle) {
+        let model = with_model && i < nd;
+        let schedule = match i % 3 { 0 => GasSchedule::Default, 1 => GasSchedule::Random(rng.next()), _ => GasSchedule::Unit };
+        let mut scn = directed_case(&mut rng, schedule, i as u64);
+        let ample = scn.tx.gas_limit;
+        if let Some((_, targets)) = gcase_push(out, &scn, "directed", model) {
+            if let Some((before, cost)) = targets.last().copied().or(None) {
+                for dl in [-1i64, 0, 1] {
+                    if !model && dl == 1 { continue; }
+                    let l = (before + cost) as i64 + dl;
+                    if l < 0 || l as u64 >= ample { continue; }
+                    scn.tx.gas_limit = l as u64;
+                    gcase_push(out, &scn, "directed-exact-limit", model && (dl != 1 || i % 2 == 0));
+                }
+                // somewhere inside the instruction's charges
+                if cost > 2 { scn.tx.gas_limit = before + rng.range(1, cost - 1); gcase_push(out, &scn, "directed-inside", false); }
+            }
+        }
+    }
+    // (2) generated programs
+    let n = args.scale(22, 700);
+    let n_oracle = args.scale(200, 6000);
     for i in 0..(n + n_oracle) {
         let model = with_model && i < n;
         let mut cfg = GenCfg::default();
@@ -163,16 +568,18 @@ fn run_c26(args: &Args, out: &mut Out) {
         cfg.gas_limit = 5_000_000;
         let mut scn = gen_scenario(&mut rng, &cfg);
         let used = gcase_push(out, &scn, "ample", model);
-        // the same program with limits that run out somewhere in the middle
-        if let Some(u) = used {
+        if let Some((u, targets)) = used {
             let k = if model { 2 } else { 3 };
-            for _ in 0..k {
-                scn.tx.gas_limit = match rng.below(5) { 0 => u, 1 => u.saturating_sub(1), 2 => rng.below(40), _ => rng.below(u + 1) };
+            for j in 0..k {
+                scn.tx.gas_limit = match (j, targets.first()) {
+                    (0, Some((before, cost))) => before + cost - 1.min(*cost),
+                    _ => match rng.below(5) { 0 => u, 1 => u.saturating_sub(1), 2 => rng.below(40), _ => rng.below(u + 1) },
+                };
                 gcase_push(out, &scn, "tight", model);
             }
         }
     }
-    for _ in 0..args.scale(6, 100) {
+    for _ in 0..args.scale(4, 100) {
         let (sd, gl) = (rng.next(), rng.below(5000));
         let scn = gen_garbage_scenario(&mut rng, GasSchedule::Random(sd), 30, gl);
         gcase_push(out, &scn, "garbage", with_model);
